@@ -307,9 +307,13 @@ pub fn shrink<E: Engine>(e: &E, case: &E::Case, v: &Violation, focus: &str) -> (
         let mut again = true;
         while again {
             again = false;
+            let cur_txt = serde_json::to_string(&cur).unwrap_or_default();
             for cand in e.simplifications(&cur) {
                 if t0.elapsed().as_secs_f64() > budget_s {
                     return (cur, replays);
+                }
+                if serde_json::to_string(&cand).unwrap_or_default() == cur_txt {
+                    continue;
                 }
                 if same(&cand) {
                     cur = cand;
